@@ -266,6 +266,14 @@ impl<'a> BTreeIterator<'a> {
 	}
 }
 
+#[cfg(pdb_verif)]
+impl<'a> BTreeIterator<'a> {
+	/// Rendering of the iterator's complete internal position (state identity for the explorer).
+	pub fn verif_state(&self) -> String {
+		format!("{:?}|{:?}|{:?}", self.iter, self.pending_backend, self.last_key)
+	}
+}
+
 #[derive(Debug)]
 pub struct BTreeIterState {
 	state: Vec<(LastIndex, Node)>,
